@@ -432,6 +432,12 @@ def c19(tier):
     }
     if not selftest:
         raise ToolError("RngConc self-test failed: the nested acquisition does not deadlock in the model")
+    # all schedules, any number of calls: inductive invariant of the generator under its mutex (RngInd.tla)
+    import inductive
+    for m in inductive.run_for(prop, tier, wd):
+        cov.setdefault("inductive", []).append({k: m[k] for k in ("config", "obligations", "distinct")})
+        for v in m["violations"]:
+            viols.append({"what": v["what"], "cause": v["what"], "detail": {"replay": v["replay"]}})
     return finish(prop, tier, t0, viols, cov)
 
 
